@@ -139,9 +139,10 @@ pub fn format_token(
             } else {
                 // Match all escapes within the string
                 // Based off https://github.com/prettier/prettier/blob/181a325c1c07f1a4f3738665b7b28288dfb960bc/src/common/util.js#L439
+                // An escaped whitespace character stays escaped: directly after `\z` it would otherwise be skipped
                 lazy_static::lazy_static! {
                     static ref RE: regex::Regex = regex::Regex::new(r#"\\?(["'])|\\([\S\s])"#).unwrap();
-                    static ref UNNECESSARY_ESCAPES: regex::Regex = regex::Regex::new(r#"^[^\n\r"'0-9\\abfnrtuvxz]$"#).unwrap();
+                    static ref UNNECESSARY_ESCAPES: regex::Regex = regex::Regex::new(r#"^[^ \t\x0B\x0C\n\r"'0-9\\abfnrtuvxz]$"#).unwrap();
                 }
                 let quote_to_use = get_quote_to_use(ctx, literal);
                 let literal = RE
